@@ -1060,10 +1060,7 @@ theorem stable_rank (q : Pos) (n : Nat) : StableT (fun t => n ≤ rankO (lookup 
 theorem finalTbl_stable {Q : Tbl → Prop} (hQ : StableA Q) (e : End) (s : St) (keep : Nat)
     (hp : ∀ u ∈ s.pending, Issued u) (h : Q s.tbl ∧ Q s.syncTbl) : Q (finalTbl e s keep) := by
   unfold finalTbl
-  split
-  · exact applyPrefix_stable hQ _ _ _ _ hp h.2
-  · exact applyPrefix_stable hQ _ _ _ _ hp h.2
-  · exact h.1
+  exact applyPrefix_stable hQ _ _ _ _ hp h.2
 
 theorem invoke_mv (p : Prog) (t : Tbl) (b : Nat) (fa : Option Nat) (imm : Pos → Backend.Immediate) :
     Mv AnyE (initSt t b fa imm) (Engine.invoke p t b fa imm).2 := run_mv p [] 0 _
